@@ -24,11 +24,19 @@ Family `handed` (harness/c42_handed.py, oracle-only): wrapped schedulers that ha
 themselves -- a recording stub scheduler handing out child stubs (identity / due time / state of every nested
 schedule call, nested raises, `now` of the handed scheduler; differential run on the bare stub) and the real
 NewThreadScheduler / ThreadPoolScheduler (a nested action runs on its parent's thread, after the parent returned, as
-on the bare scheduler)."""
+on the bare scheduler).
+
+Family `returned` (harness/c42_returned.py, oracle-only, differential): non-raising actions that RETURN a disposable
+(the disposable of follow-up work scheduled through the handed scheduler, alone or inside Disposable(fn) / Composite /
+Serial / SingleAssignment / MultipleAssignment / RefCount / a user DisposableBase subclass; BooleanDisposable; None),
+the disposable of the outer work item being disposed before the action ran, after it ran but before the follow-up is
+due, between follow-ups, after everything or never: the same follow-ups run / are cancelled and the returned object is
+disposed at the same clock as on the bare wrapped scheduler (virtual-time schedulers and a recording stub)."""
 import itertools
 import json
 
 import c42_handed
+import c42_returned
 import lib
 import vt
 
@@ -278,6 +286,17 @@ def run(chk):
             continue
         seen.add(sig)
         chk.violation(sig, rep, size=size)
+    # family `returned`: what a non-raising action returns is owned by the wrapped scheduler (oracle-only, differential)
+    rfails, rhist, rnontrivial = c42_returned.run_family(chk)
+    hist["origin"]["returned"] = sum(rhist["programs"].values())
+    hist["returned"] = rhist
+    nontrivial |= {"returned:" + x for x in rnontrivial}
+    rfails.sort(key=lambda f: f[0])
+    for size, sig, rep in rfails:
+        if sig in seen:
+            continue
+        seen.add(sig)
+        chk.violation(sig, rep, size=size)
     bad, logs = lib.correspondence("C42", "corr", IMPORTS, CASE_TY, "model", "(list_eqb oev_eqb)", gal,
                                    prelude=PRELUDE)
     chk.cov["traces_validated_against_impl"] = len(gal)
@@ -316,7 +335,26 @@ def run(chk):
                        "/ second level (handler accepts): same thread as the parent, not started before the parent "
                        "returned, state identity -- each demanded only if it holds on the bare scheduler; counted "
                        "non-trivial = stub programs with a nested call from an action that was handed another "
-                       "scheduler than the wrapped one, and every thread scenario")
+                       "scheduler than the wrapped one, and every thread scenario.  Family `returned` (oracle-only, "
+                       "differential, no model): programs of 1..3 top-level actions (now / relative / absolute) whose "
+                       "actions never raise, schedule 0..2 follow-ups each through the scheduler handed to them (up to 3 "
+                       "levels) and RETURN the follow-ups' disposables in one of 10 shapes {the nested schedule result "
+                       "itself, Disposable(fn), CompositeDisposable, SerialDisposable, SingleAssignmentDisposable, "
+                       "MultipleAssignmentDisposable, RefCountDisposable, a user subclass of abc.DisposableBase, "
+                       "BooleanDisposable (cancels nothing), None}; the disposable returned by a schedule call (top "
+                       "level or nested) is disposed before its action ran / after it ran and before the follow-up is "
+                       "due / between two follow-ups / after everything / never, by the driver between advance_to calls, "
+                       "by an action on the wrapped scheduler or by an action scheduled through the CatchScheduler; on "
+                       "VirtualTimeScheduler, TestScheduler, HistoricalScheduler and a recording stub (handing itself / "
+                       "a fresh child) that keeps what an action returned and disposes it with the work item.  "
+                       "Exhaustive: 5 wrapped schedulers x outer way x 10 shapes x follow-up way x 5 disposal points "
+                       "(disposer rotating; thorough: all three), two-level chains shape x shape x 3 points x 2 targets, "
+                       "two follow-ups in one returned object; plus random programs.  Demanded: the trace (which action "
+                       "ran at which clock, at which clock each returned object was disposed, is_disposed of the "
+                       "program-built returned objects after every disposal and at the end, anything escaping) equals "
+                       "the trace on the bare scheduler and the handler is never called; non-trivial = programs in "
+                       "which on the bare scheduler a returned object was disposed or a follow-up was cancelled after "
+                       "its parent ran")
     chk.cov["input_distribution"] = hist
     chk.add_samples([{"world": c[0], "history": c[1], "verdicts": c[2]} for c in cases[::max(1, len(cases) // 6)]])
     return chk.finish(
@@ -331,7 +369,12 @@ def run(chk):
                        "its run loop are written in the harness (an exception leaving an action ends that unit of work "
                        "only); the real-thread scenarios use wall-clock waits (40 ms linger, 10 ms delays, 5 s "
                        "watchdogs) and demand of the CatchScheduler run only what the bare run of the same scenario "
-                       "showed"],
+                       "showed",
+                       "family `returned` (harness/c42_returned.py) is oracle-only and purely differential (CatchScheduler "
+                       "run against the bare run of the same program; no independent reference of the bare scheduler's "
+                       "own behaviour); its stub MiniStub and run loop are written in the harness and dispose what an "
+                       "action returned when the work item's disposable is disposed (the ScheduledItem contract); "
+                       "whether the object arriving at the stub IS the returned object is counted, not demanded"],
         assumptions=["the inner scheduler is a virtual-time scheduler (single thread) in the families tied to the model; "
                      "a single-threaded recording stub or NewThreadScheduler/ThreadPoolScheduler in family `handed`",
                      "the handler itself does not raise; exceptions are Exception subclasses",
@@ -340,8 +383,8 @@ def run(chk):
 
 def replay(chk, path):
     d = json.load(open(path))
-    if d.get("family") in ("handed-stub", "handed-threads"):
-        bad = c42_handed.replay(d)
+    if d.get("family") in ("handed-stub", "handed-threads", "returned"):
+        bad = c42_returned.replay(d) if d["family"] == "returned" else c42_handed.replay(d)
         for sig, detail in bad:
             print("FAILS", sig, detail)
         if bad:
